@@ -61,13 +61,14 @@ def unframe(data: bytes) -> bytes:
     return b"".join(parts)
 
 
-def frame(raw: bytes, sizes=None, compress=True) -> bytes:
-    """Cut ``raw`` into chunks of the given uncompressed sizes (cycled), each <= 64 KiB."""
+def frame(raw: bytes, sizes=None, compress=True, max_chunk=MAX_CHUNK) -> bytes:
+    """Cut ``raw`` into chunks of the given uncompressed sizes (cycled), each <= max_chunk (64 KiB unless asked:
+    files written by Numbers occasionally carry larger chunks, e.g. 77 KB compressed in issue-18; the length field has 24 bits)."""
     out = []
     pos, i = 0, 0
     sizes = sizes or [MAX_CHUNK]
     while pos < len(raw):
-        sz = max(1, min(MAX_CHUNK, sizes[i % len(sizes)]))
+        sz = max(1, min(max_chunk, sizes[i % len(sizes)]))
         i += 1
         piece = raw[pos : pos + sz]
         pos += sz
